@@ -58,6 +58,22 @@ fn take(results: Vec<OsIpcSelectionResult>, g: &mut Got) {
     }
 }
 
+/// select until `expected` events were reported, in at most 3 calls.  How a set batches pending events over
+/// calls is its own business (the property speaks of REPEATED select calls); that it does not block while
+/// something is pending is the model's job (`BLOCKS_FOREVER` / `LOST_WAKEUP`).  The number of calls depends on
+/// result-vector lengths only, which are constants for the symbolic execution.
+fn collect(set: &mut OsIpcReceiverSet, expected: usize, g: &mut Got) {
+    let mut total = 0;
+    let mut rounds = 0;
+    while total < expected && rounds < 3 {
+        let r = set.select().unwrap();
+        total += r.len();
+        take(r, g);
+        rounds += 1;
+    }
+    assert!(total == expected, "C06: every pending event is reported exactly once (none missing, none extra)");
+}
+
 /// std's OwnedFd (inside mio's selector) calls the variadic `fcntl(fd, F_GETFD)` with TWO arguments in
 /// debug builds, which does not type-check against the model's three-parameter `fcntl` (kani-compiler
 /// ICE); the debug check itself is irrelevant here and is stubbed out.
@@ -168,13 +184,13 @@ fn one_member(eintr: bool) {
         env::set_eintr_at(0);
     }
     let mut g = Got::new();
-    take(set.select().unwrap(), &mut g);
+    collect(&mut set, 1, &mut g);
     assert!(g.nc == 0 && g.nd == 1 && g.d[0] == (id1, a, 1), "C06: message queued before add is reported once");
     let c: u8 = kani::any();
     assert!(inject(s1, Some(1), &[c], &[]) > 0);
     raw_close(s1);
     let mut g = Got::new();
-    take(set.select().unwrap(), &mut g);
+    collect(&mut set, 2, &mut g);
     assert!(g.nd == 1 && g.d[0] == (id1, c, 1), "C06: last message of a member comes before its closed event");
     assert!(g.nc == 1 && g.c[0] == id1, "C06: exactly one closed event, for the disconnected member");
     set_end(set, 1);
@@ -205,10 +221,17 @@ fn crash_select(sent: usize) {
     raw_close(ded.0);
     raw_close(ded.1);
     let mut g = Got::new();
-    // both members are ready before the wait: one select reports both
-    let r = set.select();
-    assert!(r.is_ok(), "C12: a sender dying mid-message made select fail as a whole (messages of other members are lost, a router stops)");
-    take(r.unwrap(), &mut g);
+    // both members are ready before the wait: two events (a message, a closure) over at most 3 calls
+    let mut total = 0;
+    let mut rounds = 0;
+    while total < 2 && rounds < 3 {
+        let r = set.select();
+        assert!(r.is_ok(), "C12: a sender dying mid-message made select fail as a whole (messages of other members are lost, a router stops)");
+        let r = r.unwrap();
+        total += r.len();
+        take(r, &mut g);
+        rounds += 1;
+    }
     assert!(g.nd == 1 && g.d[0] == (id1, a, 1), "C12: a message whose send had returned must still be delivered intact (and the interrupted one never as a message)");
     assert!(g.nc == 1 && g.c[0] == id2, "C12: the member whose only sender died is reported closed, once");
     raw_close(s1);
@@ -233,7 +256,7 @@ fn three_ready_then_add() {
     assert!(inject(s3, Some(1), &[v[1]], &[]) > 0);
     raw_close(s2); // member 2: closure only
     let mut g = Got::new();
-    take(set.select().unwrap(), &mut g);
+    collect(&mut set, 3, &mut g);
     assert!(g.nd == 2 && g.nc == 1 && g.c[0] == id2, "C06: three ready members: two messages and one closure, each once");
     let m1 = if g.d[0].0 == id1 { g.d[0] } else { g.d[1] };
     let m3 = if g.d[0].0 == id3 { g.d[0] } else { g.d[1] };
@@ -245,7 +268,7 @@ fn three_ready_then_add() {
     let id4 = set.add(rx_from_fd(r4)).unwrap();
     assert!(id4 != id1 && id4 != id3, "C06: a new member got the id of a live one");
     let mut g = Got::new();
-    take(set.select().unwrap(), &mut g);
+    collect(&mut set, 2, &mut g);
     assert!(g.nc == 0 && g.nd == 2 && g.d[0] == (id4, v[2], 1) && g.d[1] == (id4, v[3], 1), "C06: traffic queued before add is reported, in send order");
     raw_close(s1);
     raw_close(s3);
@@ -272,7 +295,7 @@ fn two_multi() {
     raw_close(ded.0);
     raw_close(ded.1);
     let mut g = Got::new();
-    take(set.select().unwrap(), &mut g);
+    collect(&mut set, 2, &mut g);
     assert!(g.nc == 0, "C06: closed event for a connected member");
     assert!(g.nd == 2, "C06: every pending message exactly once");
     let m1 = if g.d[0].0 == id1 { g.d[0] } else { g.d[1] };
@@ -295,12 +318,12 @@ fn closed_then_other() {
     let id2 = set.add(rx_from_fd(r2)).unwrap();
     raw_close(s1);
     let mut g = Got::new();
-    take(set.select().unwrap(), &mut g);
+    collect(&mut set, 1, &mut g);
     assert!(g.nd == 0 && g.nc == 1 && g.c[0] == id1, "C06: exactly one closed event, for the disconnected member only");
     let d: u8 = kani::any();
     assert!(inject(s2, Some(1), &[d], &[]) > 0);
     let mut g = Got::new();
-    take(set.select().unwrap(), &mut g);
+    collect(&mut set, 1, &mut g);
     assert!(g.nc == 0 && g.nd == 1 && g.d[0] == (id2, d, 1), "C06: surviving member still served, no second closed event");
     raw_close(s2);
     set_end(set, 2);
@@ -320,7 +343,7 @@ fn add_queued_two() {
     let id4 = set.add(rx_from_fd(r4)).unwrap();
     assert!(id4 != id1, "C06: a new member got the id of a live one");
     let mut g = Got::new();
-    take(set.select().unwrap(), &mut g);
+    collect(&mut set, 2, &mut g);
     assert!(g.nc == 0 && g.nd == 2 && g.d[0] == (id4, v[0], 1) && g.d[1] == (id4, v[1], 1), "C06: traffic queued before add is reported, in send order");
     raw_close(s1);
     raw_close(s4);
@@ -338,7 +361,7 @@ fn id_after_close() {
     let id2 = set.add(rx_from_fd(r2)).unwrap();
     raw_close(s1);
     let mut g = Got::new();
-    take(set.select().unwrap(), &mut g);
+    collect(&mut set, 1, &mut g);
     assert!(g.nd == 0 && g.nc == 1 && g.c[0] == id1, "C06: exactly one closed event, for the disconnected member only");
     // two more join (ids handed out after a removal must not walk over the id of a member that is still in)
     let (s3, r3) = raw_pair();
@@ -349,7 +372,7 @@ fn id_after_close() {
     let v: u8 = kani::any();
     assert!(inject(s4, Some(1), &[v], &[]) > 0);
     let mut g = Got::new();
-    take(set.select().unwrap(), &mut g);
+    collect(&mut set, 1, &mut g);
     assert!(g.nc == 0 && g.nd == 1 && g.d[0] == (id4, v, 1), "C06: message tagged with the id add returned for its member");
     raw_close(s2);
     raw_close(s3);
@@ -378,20 +401,25 @@ pub fn rxset_backlog_65() {
         i += 1;
     }
     raw_close(s1);
-    let res = core::mem::ManuallyDrop::new(set.select().unwrap());
-    // everything that was pending, and the closure after it, in one pass or two
-    let n1 = res.len();
-    assert!(n1 == N || n1 == N + 1, "C06: a backlog announced once (edge-triggered) must be drained completely");
-    match &res[N - 1] {
-        OsIpcSelectionResult::DataReceived(id, d, _, _) => assert!(*id == id1 && d.len() == 1 && d[0] == last, "C06: last message of the backlog (id, contents, order)"),
-        OsIpcSelectionResult::ChannelClosed(_) => assert!(false, "C06: closed event before the member's last message"),
+    // everything that was pending, then the closure, over at most 4 calls (batching is the set's business)
+    let mut total = 0;
+    let mut rounds = 0;
+    while total < N + 1 && rounds < 4 {
+        let res = core::mem::ManuallyDrop::new(set.select().unwrap());
+        let n = res.len();
+        if total <= N - 1 && N - 1 < total + n {
+            match &res[N - 1 - total] {
+                OsIpcSelectionResult::DataReceived(id, d, _, _) => assert!(*id == id1 && d.len() == 1 && d[0] == last, "C06: last message of the backlog (id, contents, order)"),
+                OsIpcSelectionResult::ChannelClosed(_) => assert!(false, "C06: closed event before the member's last message"),
+            }
+        }
+        if total <= N && N < total + n {
+            assert!(matches!(&res[N - total], OsIpcSelectionResult::ChannelClosed(i) if *i == id1), "C06: exactly one closed event after the last message");
+        }
+        total += n;
+        rounds += 1;
     }
-    if n1 == N {
-        let res2 = core::mem::ManuallyDrop::new(set.select().unwrap());
-        assert!(res2.len() == 1 && matches!(&res2[0], OsIpcSelectionResult::ChannelClosed(i) if *i == id1), "C06: exactly one closed event after the last message");
-    } else {
-        assert!(matches!(&res[N], OsIpcSelectionResult::ChannelClosed(i) if *i == id1), "C06: exactly one closed event after the last message");
-    }
+    assert!(total == N + 1, "C06: a backlog announced once (edge-triggered) must be drained completely, then exactly one closed event");
     set_end(set, 1);
 }
 
